@@ -29,6 +29,7 @@ REQUIRED_THEOREMS = [
     "TapkeeVerif.Landmarks.lmds_exact_recovery_refuted",
     "TapkeeVerif.Landmarks.ratio_one_eq_nonlandmark",
     "TapkeeVerif.Landmarks.lisomap_ratio_one_partial",
+    "TapkeeVerif.Landmarks.lisomap_ratio_one_refuted",
     "TapkeeVerif.Landmarks.rightCols_inbounds_iff",
     "TapkeeVerif.Landmarks.lmds_oob_iff",
     "TapkeeVerif.Landmarks.validation_does_not_bound_dimension",
@@ -62,7 +63,7 @@ def rand_subset(r, n, k):
 
 def gen_sel(r, quick):
     cases = []
-    for _ in range(500 if quick else 6000):
+    for _ in range(500 if quick else 20000):
         c = r.below(10)
         n = r.range(1, 40) if c < 7 else r.range(41, 400 if quick else 3000)
         t = r.below(7)
@@ -94,7 +95,7 @@ def dy(r, lo, hi, den):
 
 def gen_tri(r, quick):
     cases = []
-    for _ in range(300 if quick else 4000):
+    for _ in range(300 if quick else 10000):
         n = r.range(1, 10)
         nl = r.range(1, n)
         d = r.range(1, 4)
@@ -577,7 +578,7 @@ def judge_lisomap(run, cases):
 def lmds_cases(r, quick):
     cases = []
     # (1) exact mode: integer "distances" (also asymmetric callbacks), N and n_l powers of two
-    for _ in range(40 if quick else 400):
+    for _ in range(40 if quick else 1000):
         n, nl = r.choice([(4, 4), (8, 4), (8, 8), (16, 4), (16, 8), (16, 16), (32, 8)])
         d = r.range(1, min(5, nl - 1))
         sym = r.chance(3, 4)
@@ -588,7 +589,7 @@ def lmds_cases(r, quick):
                 dist[j][i] = dist[i][j] if sym else r.range(1, 7)
         cases.append(LmdsCase(n, d, "%d/%d" % (nl, n), dist=dist, seed=r.below(2 ** 31), exact=True, label="exact-int"))
     # (2) Euclidean integer points: rank == d (hypothesis of the distance oracle), rank < d, rank > d
-    for _ in range(120 if quick else 1500):
+    for _ in range(120 if quick else 4500):
         d = r.range(1, 5)
         kind = r.below(10)
         rank = d if kind < 6 else (r.range(1, d - 1) if kind < 8 and d > 1 else r.range(d, d + 2))
@@ -602,7 +603,7 @@ def lmds_cases(r, quick):
         cases.append(LmdsCase(n, d, ratio_for(nl, n), pts=pts, seed=r.below(2 ** 31),
                               label="euclid-rank%s" % ("=d" if rank == d else "<d" if rank < d else ">d")))
     # (3) ratio = 1
-    for _ in range(25 if quick else 300):
+    for _ in range(25 if quick else 900):
         d = r.range(1, 4)
         n = r.range(d + 2, 12)
         rank = r.range(d, d + 2)
@@ -616,7 +617,7 @@ def lmds_cases(r, quick):
         pts = int_points(r, n, 3, 3, 3)
         cases.append(LmdsCase(n, d, ratio_for(nl, n), pts=pts, seed=r.below(2 ** 31), label="d>n_l"))
     # (5) randomized solver (configurations): correspondence only
-    for _ in range(10 if quick else 100):
+    for _ in range(10 if quick else 300):
         d = r.range(1, 3)
         n = r.range(d + 3, 12)
         pts = int_points(r, n, d + 1, d, 3)
@@ -629,7 +630,8 @@ def lmds_exhaustive(r, quick):
     """every landmark subset of a small low-rank data set (ordered prefixes of the shuffle for the smallest sizes)"""
     cases = []
     plan = [(5, 2, "ordered"), (6, 2, "sets"), (7, 2, "sets"), (6, 1, "sets")] if quick else \
-           [(5, 2, "ordered"), (5, 1, "ordered"), (6, 2, "ordered"), (6, 3, "sets"), (7, 2, "ordered34"), (7, 3, "sets"), (7, 1, "sets")]
+           [(5, 2, "ordered"), (5, 1, "ordered"), (5, 3, "ordered"), (6, 2, "ordered"), (6, 3, "sets"), (6, 1, "sets"),
+            (7, 2, "ordered34"), (7, 3, "sets"), (7, 1, "sets"), (7, 4, "sets"), (7, 2, "sets")]
     for n, d, mode in plan:
         pts = int_points(r, n, d + r.below(2), d, 3)
         for nl in range(3, n + 1):
@@ -645,7 +647,7 @@ def lmds_exhaustive(r, quick):
 def lisomap_cases(r, quick):
     cases = []
     # exact mode: L1 metric on integer points (geodesics are integers), N and n_l powers of two
-    for _ in range(30 if quick else 300):
+    for _ in range(30 if quick else 800):
         n, nl = r.choice([(8, 4), (8, 8), (16, 4), (16, 8), (16, 16)])
         D = r.range(1, 2)
         pts = int_points(r, n, D, D, 2)
@@ -655,7 +657,7 @@ def lisomap_cases(r, quick):
         cases.append(LisoCase(n, d, "%d/%d" % (nl, n), k, dist=dist, seed=r.below(2 ** 31), exact=True,
                               eig=("dense" if r.chance(3, 4) else "randomized"), label="exact-L1"))
     # Euclidean / L1 metrics, approx mode, including ratio = 1 (compared with Isomap)
-    for _ in range(60 if quick else 700):
+    for _ in range(60 if quick else 2000):
         n = r.range(6, 14 if quick else 24)
         D = r.range(1, 3)
         pts = int_points(r, n, D, D, 3)
